@@ -16,12 +16,14 @@ type ReplLog struct {
 	lastDB     int
 	inTxn      bool
 	pending    []ReplCmd
+	cur        int
 }
 
 type ReplCmd struct {
 	DB   int
 	Argv [][]byte
 	End  int64 // offset in Buf just past this command
+	Conn int   // connection whose request caused it
 }
 
 // EnableRepl starts recording a replication log.
@@ -61,15 +63,16 @@ func (s *Server) prop(db int, argv [][]byte) {
 		cp[i] = append([]byte(nil), a...)
 	}
 	if s.repl.inTxn {
-		s.repl.pending = append(s.repl.pending, ReplCmd{DB: db, Argv: cp})
+		s.repl.pending = append(s.repl.pending, ReplCmd{DB: db, Argv: cp, Conn: s.curConn})
 		return
 	}
+	s.repl.cur = s.curConn
 	s.repl.emit(db, cp)
 }
 
 func (l *ReplLog) raw(db int, argv [][]byte) {
 	l.Buf = append(l.Buf, EncodeCommand(argv...)...)
-	l.Cmds = append(l.Cmds, ReplCmd{DB: db, Argv: argv, End: int64(len(l.Buf))})
+	l.Cmds = append(l.Cmds, ReplCmd{DB: db, Argv: argv, End: int64(len(l.Buf)), Conn: l.cur})
 }
 
 func (l *ReplLog) selectIfNeeded(db int) {
@@ -92,6 +95,9 @@ func (l *ReplLog) endTxn(s *Server) {
 	l.pending = nil
 	if len(p) == 0 {
 		return
+	}
+	if len(p) > 0 {
+		l.cur = p[0].Conn
 	}
 	if len(p) == 1 && !l.WrapSingle {
 		l.emit(p[0].DB, p[0].Argv)
